@@ -58,7 +58,7 @@ import ast
 from typing import Dict, List, Optional, Tuple
 
 from ..cfg import Branch, atoms, cfg_of, names_in, origins
-from ..flowutil import attr_chain, callee, for_origin, mutations_of, must_pass, param_origin
+from ..flowutil import attr_chain, callee, for_origin, mutations_of, must_pass, param_origin, sole_expr_origin
 from ..idioms import _const_index, component_origins
 from ..index import AnalysisError, FuncNode, arg_of, call_name, calls_in, const, enclosing_class, enclosing_function, kwarg, last_attr, norm, short, walk_local
 
@@ -1142,8 +1142,64 @@ def _stop_on_paths(cfg, t: "_Tiler", start, goal, stop_expr) -> List[tuple]:
 
 
 # ---------------------------------------------------------------------------
+def _r02f(chk, repo) -> None:
+    """Each variant's tree comes from that variant's own tokens."""
+    from ..flowutil import mutations_of as _muts
+
+    pr = repo.fn(LINTER, "Linter.parse_rendered")
+    cfg = cfg_of(pr)
+    pv = repo.cls(COMMON, "ParsedVariant")
+    fields = [s.target.id for s in pv.body if isinstance(s, ast.AnnAssign) and isinstance(s.target, ast.Name)]
+    ps = [c for c in calls_in(pr) if last_attr(c) == "ParsedString"]
+    if not ps:
+        raise AnalysisError("R02f: parse_rendered no longer builds a ParsedString; re-confirm the anchor")
+    n = 0
+    for c in ps:
+        a = arg_of(c, 0, "parsed_variants")
+        if not isinstance(a, ast.Name):
+            chk.fail("R02f", c, "ParsedString.parsed_variants is not a local list whose appends can be followed", detail="parse_rendered: variants list is a local")
+            continue
+        for kind, node in _muts(pr, a.id):
+            n += 1
+            if kind != "append" or not isinstance(node, ast.Call) or len(node.args) != 1:
+                chk.fail("R02f", node, f"the list of parsed variants is changed by `{kind}`, not by appending one freshly built ParsedVariant", detail=f"parse_rendered: variants list {kind}")
+                continue
+            v = node.args[0]
+            if isinstance(v, ast.Name):
+                v = sole_expr_origin(cfg, v, cfg.stmt_of(node)) or v
+            built = isinstance(v, ast.Call) and (callee(repo, v) or (None, None))[1] is pv
+            chk.require(
+                built, "R02f", node,
+                f"a parsed variant enters the result as `{short(v)}`, not as a ParsedVariant built here from this variant's own lex and parse: a reused or re-labelled result carries "
+                "another variant's tokens (source positions, templated file), so the tree's leaves are not the tokens lexed from this variant",
+                detail="parse_rendered: each appended variant is built from its own lex/parse",
+            )
+            if not built:
+                continue
+            tf = arg_of(v, fields.index("templated_file"), "templated_file") if "templated_file" in fields else None
+            tr = arg_of(v, fields.index("tree"), "tree") if "tree" in fields else None
+            lexed_from = set()
+            for k, x, pth in (_whole_sources(cfg, tr, cfg.stmt_of(node)) if tr is not None else []):
+                if k == "expr" and isinstance(x, ast.Call) and last_attr(x) == "_parse_tokens":
+                    ta = arg_of(x, 0, "tokens")
+                    for k2, x2, p2 in (_whole_sources(cfg, ta, cfg.stmt_of(x)) if ta is not None else []):
+                        if k2 == "expr" and isinstance(x2, ast.Call) and last_attr(x2) == "_lex_templated_file":
+                            la = arg_of(x2, 0, "templated_file")
+                            lexed_from.add(norm(la) if la is not None else "?")
+            same = tf is not None and lexed_from == {norm(tf)} and isinstance(tf, ast.Name) and for_origin(cfg, tf, cfg.stmt_of(node)) is not None
+            chk.require(
+                same, "R02f", node,
+                f"ParsedVariant.templated_file is `{short(tf) if tf is not None else '<missing>'}` but its tree was parsed from tokens lexed from {sorted(lexed_from) or 'nothing visible'}: "
+                "the variant must pair a templated file with the tree lexed from that same file (the loop's own variant)",
+                detail="parse_rendered: templated_file and tree come from the same loop variant",
+            )
+    chk.count("R02f.variant_list_changes", n)
+    chk.floor("R02f.variant_list_changes", 1)
+
+
 def run(chk) -> None:
     repo = chk.repo
+    chk.rule("R02f", "in parse_rendered every element of ParsedString.parsed_variants is a ParsedVariant built in that loop iteration, whose templated_file is the loop's variant and whose tree is _parse_tokens of the tokens _lex_templated_file produced from that same variant (no reuse of another variant's tree, no _replace relabelling)")
     chk.rule("R02a", "the lexed token sequence is handed whole (no slice, filter or in-place change) from _lex_templated_file through _parse_tokens and Parser.parse to root_parse, and the tree/errors handed back are the callee's")
     chk.rule("R02b", "every file segment built by root_parse consists of pieces that tile the segments parameter symbolically (shared split points, first at 0, last at the end); the root match is limited to the prefix ending where the trailing piece starts")
     chk.rule("R02c", "every segment of <tree>.iter_unparsables() becomes a SQLParseError returned with the tree; iter_unparsables is the unfiltered traversal of self.segments, or 'yield self' in UnparsableSegment")
@@ -1154,6 +1210,7 @@ def run(chk) -> None:
     _r02c(chk, repo)
     _r02d(chk, repo)
     _r02e(chk, repo)
+    _r02f(chk, repo)
     chk.note("Partial claim: hand-over, root assembly, PRS funnel, node materialisation and the greedy give-up arms. The slice arithmetic of the match implementations and of MatchResult.apply is value-level and not decided (apply's contract 'covers matched_slice' is assumed by R02b).")
 
 
@@ -1181,6 +1238,12 @@ _TAIL_OLD = (
 )
 
 VARIANTS: List[Variant] = [
+    Variant(
+        "variant-tree-paired-with-the-root-templated-file", LINTER,
+        "                ParsedVariant(\n                    variant,\n                    parsed,\n",
+        "                ParsedVariant(\n                    rendered.templated_variants[0],\n                    parsed,\n",
+        "R02f", "parse_rendered", "seeded C02-8 family: a tree paired with a templated file it was not lexed from",
+    ),
     # behaviour-preserving refactors: must stay quiet
     Variant(
         "quiet-lex-result-kept-whole-and-indexed", LINTER,
